@@ -66,7 +66,7 @@ func snapshot(root string) map[string]entry {
 			return nil
 		}
 		rel, _ := filepath.Rel(root, p)
-		e := entry{perm: fi.Mode().Perm(), ino: fi.Sys().(*syscall.Stat_t).Ino, mtime: fi.ModTime().Unix()}
+		e := entry{perm: fi.Mode() & (os.ModePerm | os.ModeSetuid | os.ModeSetgid | os.ModeSticky), ino: fi.Sys().(*syscall.Stat_t).Ino, mtime: fi.ModTime().Unix()}
 		switch {
 		case fi.IsDir():
 			e.kind = "dir"
@@ -563,11 +563,37 @@ func c17Run(ctx *core.Ctx, idx int, dotu bool, steps int) core.Result {
 			if !ok {
 				continue
 			}
-			if fi, _ := os.Lstat(filepath.Join(twin, p)); fi == nil || fi.Mode()&os.ModeSymlink != 0 {
-				continue // chmod follows symlinks: the target may dangle
+			lfi, _ := os.Lstat(filepath.Join(twin, p))
+			if lfi == nil {
+				continue
+			}
+			viaLink := lfi.Mode()&os.ModeSymlink != 0
+			if _, err := os.Stat(filepath.Join(twin, p)); viaLink && err != nil {
+				continue // chmod follows symlinks: a dangling one has nothing to change
 			}
 			perm := uint32([]int{0o600, 0o644, 0o755, 0o700, 0o444, 0o777, 0o640}[r.Intn(7)])
 			op, argc = "chmod", fmt.Sprintf("%o", perm)
+			if viaLink {
+				argc += ";through-symlink"
+			}
+			// now and then the object carries a set-id or sticky bit put there by someone else (both trees alike), and the
+			// new mode repeats the permission bits it already has: chmod(2) with that value still clears the special bit
+			if tfi, _ := os.Stat(filepath.Join(twin, p)); tfi != nil && r.Intn(3) == 0 {
+				special := []os.FileMode{os.ModeSetgid, os.ModeSticky, os.ModeSetuid}[r.Intn(3)]
+				if tfi.IsDir() {
+					special = os.ModeSticky
+				}
+				cur := tfi.Mode().Perm()
+				if os.Chmod(filepath.Join(twin, p), cur|special) == nil && os.Chmod(filepath.Join(e.root, p), cur|special) == nil {
+					before = snapshot(e.root)
+					if r.Intn(2) == 0 {
+						perm = uint32(cur)
+						argc = fmt.Sprintf("same-bits;special=%v", special)
+					} else {
+						argc += fmt.Sprintf(";special=%v", special)
+					}
+				}
+			}
 			if !walk(fid, p) {
 				continue
 			}
